@@ -482,6 +482,60 @@ static void prog_tg_nested() {
     }
 }
 
+// the body first uses ANOTHER blocking construct of the library to completion (no faults inside it) and then reaches its fault point:
+// a nested task_arena::execute into the arena it already runs in, this_task_arena::isolate, a nested parallel_for, an inner flow
+// graph run to wait_for_all, an inner task_group.  The exception thrown afterwards still belongs to the OUTER group: whatever the
+// inner construct did to the thread's execution state (context, isolation) must have been undone when it returned.
+static void inner_construct(int which) {
+    switch (which % 5) {
+    case 0: { tbb::task_arena a(tbb::task_arena::attach{}); int x = 0; a.execute([&] { x = 1; }); (void)x; break; }
+    case 1: { int x = 0; tbb::this_task_arena::isolate([&] { tbb::parallel_for(0, 3, [&](int) { }); x = 1; }); (void)x; break; }
+    case 2: { tbb::parallel_for(0, 4, [](int) { }); break; }
+    case 3: { tbb::flow::graph g; std::atomic<int> c{0}; tbb::flow::function_node<int, int> f(g, tbb::flow::unlimited, [&](int v) { c++; return v; });
+              f.try_put(1); f.try_put(2); g.wait_for_all(); break; }
+    default: { tbb::task_group in; std::atomic<int> c{0}; in.run([&] { c++; }); in.run([&] { c++; }); in.wait(); break; }
+    }
+}
+static void prog_tg_inner() {
+    int n = g_size;
+    tbb::task_group tg;
+    for (int round = 0; round < 2; ++round) {
+        M->faults_on = (round == 0);
+        std::vector<int> hits(n + 1, 0); g_hits = &hits;
+        int gid = M->new_group();
+        name_ctx(tg.context(), gid);
+        tbb::task_group_status st = tbb::not_complete;
+        std::vector<std::function<void()>> pre(n);
+        for (int i = 0; i < n; ++i) pre[i] = [i] { inner_construct(i); };
+        CallResult cr = guarded(gid, "task_group::run_and_wait (bodies use an inner construct first)", [&] {
+            for (int i = 0; i + 1 < n; ++i) tg.run(TF(gid, i, &pre[i]));
+            TF last(gid, n - 1, &pre[n - 1]);
+            st = tg.run_and_wait(last);
+        });
+        check_all_ran(hits, n, "task_group", !cr.threw);
+        if (!cr.threw && round == 1 && st != tbb::complete) M->fail("VIOLATION group not reusable after an exception (status " + S(st) + ")");
+        if (tg.context().is_group_execution_cancelled()) M->fail("VIOLATION task_group: the context is still cancelled after the waiting call exited");
+    }
+}
+static void prog_pfor_inner() {
+    int n = g_size;
+    for (int round = 0; round < 2; ++round) {
+        M->faults_on = (round == 0);
+        std::vector<int> hits(n, 0); g_hits = &hits;
+        int gid = M->new_group();
+        CallResult cr = guarded(gid, "parallel_for (bodies use an inner construct first)", [&] {
+            tbb::parallel_for(tbb::blocked_range<int>(0, n, 1), [gid](const tbb::blocked_range<int>& r) {
+                for (int i = r.begin(); i < r.end(); ++i) body_scope(gid, [&] {
+                    (*g_hits)[i]++;
+                    inner_construct(i);
+                    fault_point(K_BODY, gid);
+                });
+            }, tbb::simple_partitioner{});
+        });
+        check_all_ran(hits, n, "parallel_for", !cr.threw);
+    }
+}
+
 // a group that is cancelled by its own work while another task throws: the waiter may report either outcome
 static void prog_tg_cancel() {
     int n = g_size;
@@ -692,6 +746,8 @@ static void run_program() {
     else if (p == "tg_wait" || p == "tg_tree" || p == "tg_raw") prog_tg(p);
     else if (p == "tg_nested") prog_tg_nested();
     else if (p == "tg_cancel") prog_tg_cancel();
+    else if (p == "tg_inner") prog_tg_inner();
+    else if (p == "pfor_inner") prog_pfor_inner();
     else if (p == "flow") prog_flow();
     else if (p == "raw") prog_raw();
     else M->fail("unknown program " + p);
